@@ -124,6 +124,7 @@ def run(tier, seed, mutant=None, only_validate=False):
             for c in ("future", "sync"):
                 cfgs.append({"kind": "timed_window_unique", "interval": 2, "keep": keep, "mod": 2, "cons": [c], "max_elems": ne})
         cfgs += [{"kind": "timed_window", "interval": "2d", "cons": ["sync"], "max_elems": 3}]
+        cfgs += [{"kind": "timed_window", "interval": i, "cons": ["sync"], "max_elems": 3} for i in ("2.0s", "1min 1s")]
         cfgs += [{"kind": "timed_window", "interval": 2, "cons": ["future"], "max_elems": ne, "faults": True}]
         cfgs += [{"kind": "timed_window", "interval": 2, "cons": ["future"], "max_elems": ne, "feeder": "plain"}]
         # the input is disconnected and connected again: what has been accepted is still owed, and the window goes on ticking
